@@ -10,9 +10,9 @@ var HostileStrings = []string{
 	"\n", "a\nb", "\r\n", "\t", "a\tb", "NaN", "nan", "Inf", "-inf", "infinity", "+Inf", "1e999", "-1e999", "0x1p-2", "1_0", "1e5", "1E5", ".5", "5.", "-0", "+5",
 	"9223372036854775807", "-9223372036854775808", "9223372036854775808", "18446744073709551616", "007", "1.50", "1e-7", "0.1", "-0.001",
 	"AND", "and", "And", "OR", "or", "NOT", "not", "TO", "to", "tO", "NULL", "null", "TRUE", "false", "select", "SELECT 1", "a OR 1=1", "1=1", "') OR ('1'='1",
-	"ünï", "日本語", "üñí çødé", "e\u0301", "\u202eabc", "😀", "a😀b", "\u00a0", "\u2028", "٣", "Ⅷ", "ß", "İ",
+	"-٣", "١٢", "-１", "٣.٥", "-\U0001d7cf", "a-٣", "ünï", "日本語", "üñí çødé", "e\u0301", "\u202eabc", "😀", "a😀b", "\u00a0", "\u2028", "٣", "Ⅷ", "ß", "İ",
 	"(", ")", "()", "[", "]", "{", "}", "[a TO b]", ":", "a:b", "=", ">", "<", "<=", ">=", "+", "-", "+a", "-a", "~", "^", "~2", "^2", "a~2", "*", "a*", "*a", "a?b", "/", "//", "/x/", "/a b/", "a/b",
-	"x,y", ",", ", ", "a, b", "'x, y'", "x) OR (y", "U&'\\0041'", "E'\\n'", "e'x'", "B'1'", "X'1F'", "N'x'", `"`, `a"b`, `""`,
+	`/a\\/`, `/C:\\/`, `/x\/y/`, `/a\\\/`, `/[a-z]+\\/`, `/\//`, "x,y", ",", ", ", "a, b", "'x, y'", "x) OR (y", "U&'\\0041'", "E'\\n'", "e'x'", "B'1'", "X'1F'", "N'x'", `"`, `a"b`, `""`,
 	"a b", " a", "a ", "  ", "a  b", strings.Repeat("a", 63), strings.Repeat("a", 64), strings.Repeat("a", 65), strings.Repeat("a", 200),
 	strings.Repeat("é", 31) + "a", strings.Repeat("é", 32), strings.Repeat("é", 31) + "ab", strings.Repeat("😀", 16), "a" + strings.Repeat("😀", 16),
 	"WHERE", "FROM t", "t.a", "a.b", "a\"; DROP", "pg_sleep(10)", "current_user", "1::int", "a::text", "CAST(1 AS int)", "(SELECT 1)", "EXISTS(SELECT 1)",
@@ -30,10 +30,10 @@ func AsciiPrintable() []string {
 
 // FuzzDict are the fragments the mutational fuzzer splices into inputs.
 var FuzzDict = append(append([]string{}, Sigma...),
-	" ", "  ", "\t", "\n", "\r", "\\", "\\\\", "\\ ", "\\:", "\\(", "\\*", "\\\"", "\"", "'", "\"\"", "''", "/", "//", "/a\\/b/",
+	" ", "  ", "\t", "\n", "\r", "\\", "\\\\", "\\ ", "\\:", "\\(", "\\*", "\\\"", "\"", "'", "\"\"", "''", "/", "//", "/a\\/b/", "/a\\\\/", "\\\\/", "\\/",
 	"a:b", "a:5", "a:[1 TO 5]", "a:{* TO 5}", "a:[b TO *]", "a:(x OR y)", "a:>5", "a:>=5", "a:<5", "a:<=-5", "a:b*", "a:/r.*/", "a~", "a~2", "a^", "a^1.5",
 	"NOT ", " AND ", " OR ", " TO ", "to", "and", "or", "not", "+", "-", "--", "-5", "- 5", "1e5", "NaN", "Inf", ".", "..", "-.", "5.", "0x10", "é", "日", "\xff", "\x00", "\xc3",
-	"((", "))", "()", "[]", "{}", "[*", "*]", "TO *", ":(", "):", ":[", ":{", "=:", ":=", ":>", ":<", ">=", "<=", "~~", "^^", "~^", "^~", "~-1", "^-1", "^0", "~0",
+	"٣", "-٣", "１", "-１", "((", "))", "()", "[]", "{}", "[*", "*]", "TO *", ":(", "):", ":[", ":{", "=:", ":=", ":>", ":<", ">=", "<=", "~~", "^^", "~^", "^~", "~-1", "^-1", "^0", "~0",
 )
 
 // RepoSeeds are the inputs the repository's own tests and fuzz targets use.
